@@ -52,6 +52,8 @@ def fold_op(proj, cell, weights="opaque", below_threshold=False, prepare=None):
         R.install_result_summaries(ev)
         if weights == "opaque":
             R.opaque_weights(ev)
+        elif weights == "semi":
+            R.semi_opaque_weights(ev)
         if prepare is not None:
             prepare(ev, runner)
         o, elems = R.esf_of(ev, runner, cell.obs)
@@ -86,3 +88,32 @@ def same(a, b):
 def diff_text(a, b):
     d = A.difference(A.to_rat(a), A.to_rat(b), tol=Fraction(1, 10**9))
     return A.fmt_diffs(d, limit=3)
+
+
+def sum_ops(ops):
+    """Entry-wise sum of folded operators (union of keys)."""
+    keys = set()
+    for o in ops:
+        keys |= o.keys()
+    return keys
+
+
+def compare_sum(lhs, rhs_list, what="values"):
+    """lhs == sum(rhs_list) entry by entry; returns (n_entries, [(key, pid, j, text)])."""
+    keys = set(lhs.keys())
+    for o in rhs_list:
+        keys |= o.keys()
+    ncol = len(next(iter(lhs.orders.values()))[0][0]) if lhs.orders else 0
+    bad = []
+    n = 0
+    for key in sorted(keys):
+        for pid in lhs.pids:
+            for j in range(ncol):
+                n += 1
+                got = lhs.entry(key, pid, j)
+                exp = A.Rat.const(0)
+                for o in rhs_list:
+                    exp = exp + A.to_rat(o.entry(key, pid, j))
+                if not same(got, exp):
+                    bad.append((key, pid, j, diff_text(got, exp)))
+    return n, bad
